@@ -74,15 +74,19 @@ fn c05_attributes_parse_total() {
     let mut raw: [u8; 24] = kani::any();
     raw[0..4].copy_from_slice(&100u32.to_le_bytes());
     let bytes = Bytes::copy_from_slice(&raw);
-    let n: usize = kani::any();
-    kani::assume(n <= 2);
-    let p = Attributes::parse(&bytes, n);
-    kani::cover!(p.is_ok());
-    kani::cover!(p.is_err());
-    if let Ok(a) = &p {
-        assert!(a.file_attributes.len() == n);
+    // block counts concrete (a symbolic count makes every per-file Vec symbolic-length)
+    let mut n = 0;
+    while n <= 2 {
+        let p = Attributes::parse(&bytes, n);
+        kani::cover!(p.is_ok());
+        kani::cover!(p.is_err());
+        if let Ok(a) = &p {
+            assert!(a.file_attributes.len() == n);
+        }
+        std::mem::forget(p);
+        n += 1;
     }
-    std::mem::forget((p, bytes));
+    std::mem::forget(bytes);
 }
 
 #[kani::proof]
